@@ -25,6 +25,19 @@ import (
 	"github.com/hugelgupf/p9/linux"
 )
 
+// bindRefused reports whether err, returned by sendRecv for a request that
+// would have bound a new fid, means that the server certainly has not bound it:
+// the request was never sent, or the server refused it. After any other error
+// (the connection failed, the reply never came) the server may have the fid
+// bound, and its number must not be given to another File.
+func bindRefused(err error) bool {
+	if err == ErrOutOfTags {
+		return true
+	}
+	_, refused := err.(linux.Errno)
+	return refused
+}
+
 // Attach attaches to a server.
 //
 // Note that authentication is not currently supported.
@@ -36,7 +49,9 @@ func (c *Client) Attach(name string) (File, error) {
 
 	rattach := rattach{}
 	if err := c.sendRecv(&tattach{fid: fid(id), Auth: tauth{AttachName: name, Authenticationfid: noFID, UID: NoUID}}, &rattach); err != nil {
-		c.fidPool.Put(id)
+		if bindRefused(err) {
+			c.fidPool.Put(id)
+		}
 		return nil, err
 	}
 
@@ -127,7 +142,9 @@ func (c *clientFile) xattrWalkRead(attr string) ([]byte, error) {
 
 	rxattrwalk := rxattrwalk{}
 	if err := c.client.sendRecv(&txattrwalk{fid: c.fid, newFID: fid(id), Name: attr}, &rxattrwalk); err != nil {
-		c.client.fidPool.Put(id)
+		if bindRefused(err) {
+			c.client.fidPool.Put(id)
+		}
 		return nil, err
 	}
 
@@ -160,7 +177,9 @@ func (c *clientFile) Walk(names []string) ([]QID, File, error) {
 
 	rwalk := rwalk{}
 	if err := c.client.sendRecv(&twalk{fid: c.fid, newFID: fid(id), Names: names}, &rwalk); err != nil {
-		c.client.fidPool.Put(id)
+		if bindRefused(err) {
+			c.client.fidPool.Put(id)
+		}
 		return nil, nil, err
 	}
 
@@ -194,7 +213,9 @@ func (c *clientFile) WalkGetAttr(components []string) ([]QID, File, AttrMask, At
 
 	rwalkgetattr := rwalkgetattr{}
 	if err := c.client.sendRecv(&twalkgetattr{fid: c.fid, newFID: fid(id), Names: components}, &rwalkgetattr); err != nil {
-		c.client.fidPool.Put(id)
+		if bindRefused(err) {
+			c.client.fidPool.Put(id)
+		}
 		return nil, nil, AttrMask{}, Attr{}, err
 	}
 
